@@ -1,6 +1,9 @@
 import ExprModel.Proofs.RefineTop
 import ExprModel.Proofs.RefineLoopAll
 import ExprModel.Proofs.RefineExample
+import ExprModel.Proofs.RefineFloats
+import ExprModel.Api.Pipeline
+import ExprModel.Proofs.RefineBenignAll
 /-
 C01 — Compiled evaluation conforms to the language definition.
 
@@ -123,6 +126,68 @@ example (c : Cfg) (ctx : Ctx) : Conforms c (progOf exCompiled) 0 (lsize exCompil
     ⟨fun i w h => by simp at h, fun o h => by cases h⟩ ex_floats (progOf exCompiled) [] []
     (by simp [progOf, Compiled.bytes]) (PoolExt.refl _) ex_fits c (fun h => by cases h) (ex_good c) ctx
 
+/-- The same with the float hypotheses as one *computable* check on the tree: `floatsOK n` — float constants
+    arise from float literals only (no float `ConstantNode`, no float-typed integer literal), and no two literals
+    with different bit patterns are `==` (not `0.0` together with `-0.0`).  Every tree the parser produces from
+    source text without ConstExpr substitutions can be tested with it by evaluation. -/
+theorem run_conforms_checked (cfg : CompCfg) (n : Node) (cp : Compiled) (c : Cfg)
+    (hc : compileProgram cfg n = .ok cp) (hfl : floatsOK n = true) (hfit : FitsU16 cp.code)
+    (henv : EnvOK c cfg) (hg : Good (SmallColl c) n) :
+    ∃ N, ∀ fuel, N ≤ fuel → RunAgrees (run c (progOf cp) fuel) (Spec.run (specOf c) cfg.cast n) :=
+  run_conforms_partial cfg n cp _ c hc (floatsOK_spec hfl).1 (floatsOK_spec hfl).2 hfit henv hg
+
+example : floatsOK exTree = true := by decide
+
+/-! ### why `AliasFree` is there: the constant pool identifies floats that are `==`
+
+Known finding `c01:negative-zero-constant-aliased` (exhibited on the real code by harness/c01.go: a ConstExpr
+function returning `-0.0` next to a literal `0.0`).  Lean's `Float` operations are opaque to the kernel, so the
+IEEE fact `0.0 == -0.0` enters as the hypothesis `(a == b) = true`: whenever it holds the compiled program
+pushes constant 0 twice — the run yields `[a, a]` — while the language definition yields `[a, b]`. -/
+
+/-- the tree `[a, b]` of two float constants (as a ConstExpr function leaves them) -/
+def twoFloats (a b : Float) : Node := .array {} [.const {} (.f64 a), .const {} (.f64 b)]
+
+theorem negzero_alias_witness (a b : Float) (hab : (a == b) = true) :
+    compileProgram {} (twoFloats a b) =
+      .ok ⟨[li {} .push 0, li {} .push 0, li {} .push 1, li {} .array], #[.f64 a, .int .int 2]⟩ ∧
+    ∀ sc : SCfg, 2 < sc.budget → (Spec.run sc none (twoFloats a b)).1 = .ok (.arr .iface [.f64 a, .f64 b]) := by
+  constructor
+  · have h1 : mkConst (.f64 a) {} = .ok (0, ⟨#[.f64 a], []⟩) := rfl
+    have h2 : mkConst (.f64 b) ⟨#[.f64 a], []⟩ = .ok (0, ⟨#[.f64 a], []⟩) := by
+      simp [mkConst, hashable, Pool.findIdx, constKeyEq, hab, List.range, List.range.loop]
+    have h3 : mkConst (.int .int 2) ⟨#[.f64 a], []⟩ = .ok (1, ⟨#[.f64 a, .int .int 2], []⟩) := by
+      simp [mkConst, hashable, Pool.findIdx, constKeyEq, List.range, List.range.loop]
+    simp [compileProgram, twoFloats, compileNode_array, compileList_cons, compileList_nil, compileNode_const, h1, h2, h3,
+      bind, Except.bind, pure, Except.pure]
+  · intro sc hb
+    have he : eval sc [] (twoFloats a b) {} =
+        (.ok (.arr .iface [.f64 a, .f64 b]), ⟨2, 2, []⟩) := by
+      unfold twoFloats
+      rw [eval_array, SM.bind_apply, evalList_cons _ _ _ _ rfl, SM.bind_apply, eval_const, SM.pure_apply]
+      simp only []
+      rw [SM.bind_apply, evalList_cons _ _ _ _ rfl, SM.bind_apply, eval_const, SM.pure_apply]
+      simp only []
+      rw [SM.bind_apply, evalList_nil, SM.pure_apply]
+      simp only [SM.pure_apply]
+      have := alloc_tail sc.budget 2 (.arr .iface [.f64 a, .f64 b]) {}
+      simp only [List.length_cons, List.length_nil] at this ⊢
+      rw [this]
+      have hlt : ¬ ((allocd {} ((2 : Nat) : Int) 2).memory ≥ sc.budget) := by
+        show ¬ ((0 : Int) + ((2 : Nat) : Int) ≥ sc.budget)
+        omega
+      rw [if_neg hlt]
+      rfl
+    rw [specRun_eq _ _ _ _ _ he]
+    rfl
+
+/-- … and then no `F` containing both constants is alias-free unless they are the same float -/
+theorem negzero_not_aliasfree (a b : Float) (hab : (a == b) = true) (hne : a ≠ b) (F : Val → Prop)
+    (ha : F (.f64 a)) (hb : F (.f64 b)) : ¬ AliasFree F := by
+  intro hF
+  have := hF (.f64 a) (.f64 b) ha hb (by simpa [constKeyEq] using hab)
+  exact hne (by injection this)
+
 /-- a successful run never pops an empty stack and leaves stack and scopes empty (`final_stack_singleton`,
     `final_scopes_empty` of C05), and a failing run fails with a class the Spec produces -/
 theorem run_result_partial (cfg : CompCfg) (n : Node) (cp : Compiled) (F : Val → Prop) (c : Cfg)
@@ -153,5 +218,85 @@ example (c : Cfg) : ∃ N, ∀ fuel, N ≤ fuel →
     RunAgrees (run c (progOf exCompiledA) fuel) (Spec.run (specOf c) none exTreeA) :=
   run_conforms_stageA {} exTreeA exCompiledA (fun _ => False) c exA_compiles (fun _ _ h => h.elim) exA_floats
     exA_good exA_fits (fun h => by cases h)
+
+/-! ### C05: a compiled program never pops an empty stack and never runs off its code
+
+`Benign e`: `e` is one of the language's own failure classes (type, index, divzero, budget, call).  The VM
+model has three more — `underflow` (pop of an empty stack, missing scope), `badop` (unknown opcode, operand or
+jump outside the program) and `fuel` — and a run of a compiled program never ends in one of them: the run
+fails exactly when the language definition does, and the definition has no such failure (`eval_benign`).
+`WorldOK`: environment functions themselves fail with a language class (a panic inside one is `call`). -/
+
+theorem spec_run_benign (cfg : CompCfg) (n : Node) (cp : Compiled) (c : Cfg)
+    (hc : compileProgram cfg n = .ok cp) (hfl : floatsOK n = true) (hg : Good (SmallColl c) n)
+    (hw : WorldOK c.world) : ∀ e, (Spec.run (specOf c) cfg.cast n).1 = .error e → Benign e := by
+  unfold compileProgram at hc
+  rw [bind_ok] at hc
+  obtain ⟨⟨code, p⟩, hcn, _⟩ := hc
+  have hinv : PoolInv (LitIn (floatBits n)) {} := ⟨fun i w h => by simp at h, fun o h => by cases h⟩
+  have hcomp := (compile_compiles cfg _ (floatsOK_spec hfl).1 n {} code p hcn hinv (floatsOK_spec hfl).2).comp
+    p.consts (PoolExt.refl p)
+  have hb := eval_benign (sc := specOf c) hw rfl n code [] hcomp hg
+  intro e he
+  cases hev : eval (specOf c) [] n {} with
+  | mk r σ' =>
+  rw [specRun_eq _ _ _ _ _ hev] at he
+  cases r with
+  | error e' =>
+    have : e' = e := by cases hcast : cfg.cast <;> (rw [hcast] at he; cases he; rfl)
+    subst this
+    exact hb _ _ _ hev
+  | ok v =>
+    cases hcast : cfg.cast with
+    | none => rw [hcast] at he; cases he
+    | some t => rw [hcast] at he; exact castV_benign t v e he
+
+theorem no_underflow (cfg : CompCfg) (n : Node) (cp : Compiled) (c : Cfg)
+    (hc : compileProgram cfg n = .ok cp) (hfl : floatsOK n = true) (hfit : FitsU16 cp.code)
+    (henv : EnvOK c cfg) (hg : Good (SmallColl c) n) (hw : WorldOK c.world) :
+    ∃ N, ∀ fuel, N ≤ fuel → ∀ e, (run c (progOf cp) fuel).1 = .error e →
+      Benign e ∧ e ≠ .underflow ∧ e ≠ .badop ∧ e ≠ .fuel := by
+  obtain ⟨N, hN⟩ := run_conforms_checked cfg n cp c hc hfl hfit henv hg
+  refine ⟨N, fun fuel hf e he => ?_⟩
+  have hb := spec_run_benign cfg n cp c hc hfl hg hw e (by rw [← (hN fuel hf).1]; exact he)
+  refine ⟨hb, ?_, ?_, ?_⟩ <;> (rintro rfl; rcases hb with h | h | h | h | h <;> cases h)
+
+example : WorldOK { call := fun id _ => if id == "Fail" then .error .call else .ok .nil,
+                    regexMatch := fun _ _ => none, pow := fun a _ => a } := by
+  intro id args e h
+  dsimp only at h
+  split at h <;> cases h
+  exact .inr (.inr (.inr (.inr rfl)))
+
+example (c : Cfg) (hw : WorldOK c.world) : ∃ N, ∀ fuel, N ≤ fuel → ∀ e, (run c (progOf exCompiled) fuel).1 = .error e →
+    Benign e ∧ e ≠ .underflow ∧ e ≠ .badop ∧ e ≠ .fuel :=
+  no_underflow {} exTree exCompiled c ex_compiles (by decide) ex_fits (fun h => by cases h) (ex_good c) hw
+
+/-! ### `expr.Eval`: source text to result through every model stage
+
+`Api.evalSource` = lexer model, parser model, `compileProgram {}` (no types, no optimiser), `run`.  Whenever the
+text lexes and parses (to `n`) and `n` compiles, evaluating the source is evaluating `n` by the language
+definition — under the exclusions of `run_conforms_checked`, now all but `SmallColl` decidable on the parsed
+tree / compiled program. -/
+
+theorem eval_source_conforms (F : Api.Front) (c : Cfg) (src : String) (ts : List Token) (n : Node) (cp : Compiled)
+    (hlex : Lex.lex F.cc F.tables src = .ok ts) (hparse : Parser.parse F.pcfg ts = .ok n)
+    (hcomp : compileProgram {} n = .ok cp) (hfl : floatsOK n = true) (hfit : FitsU16 cp.code)
+    (hg : Good (SmallColl c) n) :
+    ∃ N, ∀ fuel, N ≤ fuel → ∃ res final, Api.evalSource F c fuel src = .ran res final ∧
+      RunAgrees (res, final) (Spec.run (specOf c) none n) := by
+  obtain ⟨N, hN⟩ := run_conforms_checked {} n cp c hcomp hfl hfit (fun h => by cases h) hg
+  refine ⟨N, fun fuel hf => ⟨_, _, ?_, hN fuel hf⟩⟩
+  simp only [Api.evalSource, hlex, hparse, hcomp]
+  rfl
+
+/-- the failing stages are reported as such, in order -/
+theorem eval_source_stages (F : Api.Front) (c : Cfg) (fuel : Nat) (src : String) :
+    (∀ e, Lex.lex F.cc F.tables src = .error e → Api.evalSource F c fuel src = .lexError e) ∧
+    (∀ ts e, Lex.lex F.cc F.tables src = .ok ts → Parser.parse F.pcfg ts = .error e →
+      Api.evalSource F c fuel src = .parseError e) ∧
+    (∀ ts n e, Lex.lex F.cc F.tables src = .ok ts → Parser.parse F.pcfg ts = .ok n → compileProgram {} n = .error e →
+      Api.evalSource F c fuel src = .compileError e) := by
+  refine ⟨fun e h => ?_, fun ts e h1 h2 => ?_, fun ts n e h1 h2 h3 => ?_⟩ <;> simp only [Api.evalSource, *]
 
 end ExprModel.C01
